@@ -12,7 +12,8 @@
 (***************************************************************************)
 EXTENDS Integers, Sequences, FiniteSets, TLC
 
-CONSTANTS Triples      \* TRUE: sets of three definitions (sampled by the harness), FALSE: pairs
+CONSTANTS Triples,     \* TRUE: sets of three definitions (sampled by the harness), FALSE: pairs
+          ChainLen     \* 0, or the number of minor versions in a chain A.M.1 .. A.M.ChainLen (every prefix is a case)
 
 VARIABLES ph, case, out
 vars == <<ph, case, out>>
@@ -67,10 +68,10 @@ PairwiseOK(S) ==
 
 Ids2 == { <<n, M, m>> : n \in {"A", "B"}, M \in {0, 1, 2}, m \in {1, 2} }   \* version 0.0 does not exist
 Init == ph = 0 /\ case = {} /\ out = TRUE
-First == /\ ph = 0
+First == /\ ph = 0 /\ ChainLen = 0
          /\ \E M \in {0, 1, 2}, a \in Attrs : case' = { Def("A", M, 1, a) }
          /\ out' = TRUE /\ ph' = 1
-Second == /\ ph = 1
+Second == /\ ph = 1 /\ ChainLen = 0
           /\ \E i \in Ids2, a \in Attrs :
                LET d == Def(i[1], i[2], i[3], a) IN
                  /\ \A e \in case : ~SameId(d, e)
@@ -84,7 +85,19 @@ Third == /\ Triples /\ ph = 2
                  /\ case' = case \cup {d}
                  /\ out' = Consistent(case')
          /\ ph' = 3
-Next == First \/ Second \/ Third
+\* chains of minor versions under one major version: the port-ID rule (added later, never changed or removed) and the
+\* layout rule relate every two members, not only neighbours or a member and the oldest one
+ChainAttrs == { a \in Attrs : a.resp = a.req /\ (ChainLen > 3 => a.req.x = "e") }
+ChainFirst == /\ ph = 0 /\ ChainLen > 0
+              /\ \E M \in {0, 1}, a \in ChainAttrs : case' = { Def("A", M, 1, a) }
+              /\ out' = TRUE /\ ph' = 1
+ChainNext == /\ ChainLen > 0 /\ ph >= 1 /\ ph < ChainLen
+             /\ \E a \in ChainAttrs :
+                  LET M == (CHOOSE e \in case : TRUE).maj IN
+                    /\ case' = case \cup { Def("A", M, ph + 1, a) }
+                    /\ out' = Consistent(case')
+             /\ ph' = ph + 1
+Next == First \/ Second \/ Third \/ ChainFirst \/ ChainNext
 Spec == Init /\ [][Next]_vars
 
 \* the pairwise loops decide exactly the stated rules
